@@ -282,6 +282,16 @@ class NpCalls:
         sargs = list(shp.elts) if shp.elts is not None else [shp]
         return self.array_method(interp, st, a, 'reshape', sargs, {}, node)
 
+    def np_isin(self, interp, st, args, kwargs, node):
+        el = as_array(args[0]) if args else TOP
+        test = self.arg(args, kwargs, 1, 'test_elements')
+        if test is not None and (test.ty in ('set', 'dictkeys', 'dictvalues') or (test.ty == 'dict')):
+            # numpy wraps a set into a 0-d object array: no element is ever "in" it
+            interp.emit('isin_set', node, arg=test)
+        return AV(ty='ndarray', dtype='bool', axes=el.axes, deps=self.deps_of(args, kwargs), store='fresh', isin=(el, test))
+
+    np_in1d = np_isin
+
     def np_swapaxes(self, interp, st, args, kwargs, node):
         return self.swapaxes(as_array(args[0]), args[1], args[2]).w(deps=self.deps_of(args, kwargs)) if len(args) == 3 else as_array(args[0]).w(axes=None)
 
@@ -548,6 +558,7 @@ class NpCalls:
         d = self.deps_of(args, kwargs)
         ml = kwargs.get('minlength')
         interp.emit('bincount', node, x=args[0], minlength=ml)
+        interp.emit('index', node, base=AV(ty='ndarray', alloc='bincount'), index=args[0], items=[args[0]])
         return AV(ty='ndarray', dtype='int', deps=d, store='fresh', mono=Mono.atom('count'), bincount_of=args[0], minlength=ml,
                   axes=('k',))
 
@@ -679,6 +690,9 @@ class NpCalls:
                  store='fresh', mono=nm, red=(name, x, axis, tuple(sorted(removed))), idx=x.idx if name in ORDER_REDUCERS else None,
                  mono_unknown=x.mono_unknown)
         if name in ('any', 'all'):
+            if x.idx is not None and x.idx[0] in ('FRAME', 'SITE', 'ATOM', 'ATOMFRAME', 'LOCALSITE', 'BIN') and x.dtype != 'bool' and x.cmp is None and x.nonzero_of is not None:
+                # .any() of an array of positions tests whether some position is non-zero, not whether there are any: position 0 counts as 'none'
+                interp.emit('index_truthiness', node, arg=x, fn=name)
             out = out.w(dtype='bool', ty='bool' if axis == 'none' else 'ndarray', idx=None, mono=None, geo=None)
         if name in ('argmin', 'argmax'):
             out = out.w(dtype='int')
